@@ -128,7 +128,7 @@ def bounded_roundtrip(tier, seed):
 def bounded(chk):
     n, words, fail = bounded_roundtrip(chk.tier, chk.seed)
     chk.bounded_result("grammar_roundtrip", n, n, False,
-                       f"{n} generated documents (sections 2-4 levels with body text, paragraphs, nested bullet/numbered lists, tables with header/data cells, ''/'''/<b>/<i> styles, internal/external links, refs, preformatted lines) in en/de/fr; {words} words compared: every word once, in order, under the denoted structural ancestors",
+                       f"{n} generated documents (sections 2-4 levels with body text, paragraphs, nested bullet/numbered lists, definition lists in both spellings followed directly by other list kinds, list / text / table / list separated by single newlines only, tables with header/data cells, ''/'''/<b>/<i> styles, internal/external links, refs, preformatted lines) in en/de/fr; {words} words compared: every word once, in order, under the denoted structural ancestors",
                        [fail] if fail else [])
 
 
